@@ -1381,6 +1381,8 @@ func main() {
 	}
 	b.WriteString("]\n\n")
 	b.WriteString(accessTable(repo))
+	b.WriteString("\n")
+	b.WriteString(structCensus(repo))
 	b.WriteString("\nend " + ns + "\n")
 	old, _ := os.ReadFile(outPath)
 	if string(old) != b.String() {
